@@ -1,13 +1,17 @@
 import Chess.Lemmas.Reach
+import Chess.Lemmas.Mate
 
 /-!
 # C10 — forced mates within the horizon are found; dead positions are reported as such
 
-What is proved here: the dead-root half and the self-stop mechanism. The mate-in-one half
-(`Chess/Lemmas/Mate.lean`, imported by `Props/C10b.lean` when present) is the value argument:
-a mated child searched with remaining depth ≥ 2 returns the exact mate score whatever its window.
-Mate in two needs sound table entries two plies down and is decided by the independent solver on
-the implementation only (DESIGN §6 C10: partial).
+Proved for every game interface: the dead-root half, the self-stop mechanism, and MATE IN ONE:
+from a fresh table a search to depth ≥ 3 (or unlimited) plays a mating move and stops by itself
+at depth ≤ 3. Hypotheses of the mate theorem, both shown necessary by kernel-checked
+counterexamples in `Chess/Lemmas/Mate.lean`: `Bounded` (static evaluations stay out of the
+driver's mate range ±31767) and `HashSep` (no position with a legal move shares its hash with a
+mated child of the root; follows from the Zobrist hypothesis). Mate in two needs sound table
+entries two plies down and is decided by the independent solver on the implementation only
+(partial).
 -/
 namespace Chess.Props.C10
 open Chess Chess.Search
@@ -46,6 +50,29 @@ theorem stops_by_itself (o : Ops G M) (g : G) (tt : Table M) (off : Bool) (md : 
       out.infos.getLast?.map (·.depth) = some (limitOf md)) :=
   driver_terminates_by_itself o g tt off md
 
+open Chess.Search.Mate in
+/-- **C10.4 mate in one is found.** If some root move leaves the opponent without a legal move
+and in check, then from a fresh table, with a flag that stays up, for every limit `N ≥ 3` or none,
+the driver reports a move that mates, is not stopped, and never searches deeper than 3. -/
+theorem mate_in_one_is_played (o : Ops G M) (hb : Bounded o) (g : G) (hsep : HashSep o g)
+    (hmate : ∃ m ∈ rootMoves o g, Mated o (o.push g m))
+    (runs : Nat → Bool) (hr : ∀ i, runs i = true) (off : Bool) (md : Option Nat)
+    (hmd : md = none ∨ ∃ N, md = some N ∧ 3 ≤ N) :
+    let out := driver o runs g {} off md
+    ∃ m, out.found = some m ∧ MatingMove o g m ∧ out.stopped = false ∧
+      ∀ info ∈ out.infos, info.depth ≤ 3 :=
+  mate_in_one_found o hb g hsep hmate runs hr off md hmd
+
+open Chess.Search.Mate in
+/-- a mated position two or more plies above the horizon returns the exact mate score whatever
+its window (the value argument behind C10.4) -/
+theorem mated_node_scores_exactly {o : Ops G M} {runs : Nat → Bool} {c : G} (hm : Mated o c)
+    (remaining : Nat) (h2 : 2 ≤ remaining) (a b rd : Int) (st : St M)
+    (hr : runs st.polls = true) (hnone : st.tt[o.hash c]? = none) :
+    node o runs remaining c a b rd st = some (scoreMin + Gen.mateNode + rd, pollSt st) ∧
+      (pollSt st).tt[o.hash c]? = none :=
+  mated_child_value hm remaining h2 a b rd st hr hnone
+
 /-- chess instance of C10.2 -/
 example (g : Game) (h : (g.getMoves true).1 = []) :
     (driver Uci.chessOps (fun _ => true) g {} false none).found = none :=
@@ -56,3 +83,5 @@ end Chess.Props.C10
 #print axioms Chess.Props.C10.dead_position_reports_no_move
 #print axioms Chess.Props.C10.dead_root_fresh_table
 #print axioms Chess.Props.C10.stops_by_itself
+#print axioms Chess.Props.C10.mate_in_one_is_played
+#print axioms Chess.Props.C10.mated_node_scores_exactly
